@@ -665,9 +665,9 @@ where
     fn write(&mut self, buf: &[u8]) -> std::io::Result<usize> {
         let mut cur = std::io::Cursor::new(buf);
         while let Some(ch) = self.decoder.decode(&mut cur)? {
-            if !self.parent.put_char(ch) {
-                return Ok(buf.len());
-            }
+            // keep decoding even if parent is out of space, otherwise state of the
+            // decoder would depend on how data is split between writes
+            self.parent.put_char(ch);
         }
         Ok(cur.position() as usize)
     }
@@ -944,9 +944,9 @@ impl std::io::Write for TerminalWriter<'_> {
     fn write(&mut self, buf: &[u8]) -> std::io::Result<usize> {
         let mut cur = std::io::Cursor::new(buf);
         while let Some(ch) = self.decoder.decode(&mut cur)? {
-            if !self.put_char(ch) {
-                return Ok(buf.len());
-            }
+            // keep decoding even if writer is out of space, otherwise state of the
+            // decoder would depend on how data is split between writes
+            self.put_char(ch);
         }
         Ok(cur.position() as usize)
     }
